@@ -6,6 +6,7 @@ import Driver.FX
 import Driver.Linalg
 import Driver.Splines
 import Driver.Ser
+import Driver.Load
 open Drv
 
 structure St where
@@ -18,7 +19,8 @@ structure St where
 
 def stepLine (st : St) (line : String) : St × String :=
   let toks := (line.trimAscii.toString.splitOn " ").filter (· ≠ "")
-  if toks == ["reset"] then ({}, "ok") else
+  -- `reset` drops every handle; the tables of built-in calendars (`defname`) are constants and stay
+  if toks == ["reset"] then ({ dates := { names := st.dates.names } }, "ok") else
   match dateStep st.dates toks with
   | some (d, out) => ({ st with dates := d }, out)
   | none =>
@@ -41,6 +43,9 @@ def stepLine (st : St) (line : String) : St × String :=
   | some (sp, out) => ({ st with splines := sp }, out)
   | none =>
   match serStep st.duals st.curves st.fx st.splines st.dates.calNames toks with
+  | some out => (st, out)
+  | none =>
+  match loadStep st.dates st.splines toks with
   | some out => (st, out)
   | none => (st, "bad-op")
 
